@@ -20,6 +20,7 @@ From Coq.Strings Require Import Byte.
 Require Import GV.Base.Res GV.Base.Byt GV.Base.Ints GV.Model.Leb GV.Model.Prim.
 Require Import GV.Spec.OpEncSpec GV.Model.OpWr.
 Require Import GV.Proofs.OpWrProofs GV.Proofs.OpWrDec GV.Proofs.OpWrTotal.
+Require GV.Model.OpDec GV.Model.OpVal GV.Model.OpEval GV.Spec.StackSpec GV.Proofs.OpRoundtrip GV.Proofs.OpEvalSim GV.Proofs.OpParseWf GV.Proofs.OpEvalSame.
 Import ListNotations.
 Local Open Scope N_scope.
 
@@ -307,3 +308,110 @@ Proof. vm_compute. reflexivity. Qed.
 Example far_branch :
   write_op true enc4 None false [0; 3; 40003] 0 (WoSkip 2) = Err WValueTooLarge.
 Proof. vm_compute. reflexivity. Qed.
+
+(* ------------------------------------------------------------------ composition with the reader / evaluator models (C07) *)
+
+(* The independent table of Spec/OpEncSpec.v and the reader model OpDec.parse_op (mirror of read::Operation::parse)
+   agree on every opcode and every operand byte string: whatever the table decodes, the reader decodes to the
+   corresponding operation (OpRoundtrip.tr) and leaves the same rest, in either build mode. *)
+Theorem table_agrees_with_reader : forall (rdbg : bool) (c : dcfg) (bs : list byte) (d : dop) (rest : list byte),
+  decode_one c bs = Some (d, rest) ->
+  exists o, OpRoundtrip.tr d = Some o /\ OpDec.parse_op rdbg (OpRoundtrip.renc c) bs = Ok (o, rest).
+Proof. exact OpRoundtrip.table_agrees_with_reader. Qed.
+
+(* (a) Iterating the reader over what write::Expression emitted ends normally (no error, no leftover) and yields,
+   in order, exactly the reader's forms of the normal forms of the built operations. *)
+Theorem decode_written_by_reader : forall dbg rdbg e uo refs base ex bs fx,
+  forallb wf_op ex = true -> wf_uoffs uo = true -> forallb decodable ex = true ->
+  base + blen bs < 2 ^ 63 ->
+  write_expr dbg e uo refs base ex = Ok (bs, fx) ->
+  exists offsets dl ros,
+    expr_offsets dbg e uo base ex = Ok offsets /\
+    decoded (fun p o d => exists b, normal_form dbg e uo refs offsets p o b d) base ex offsets dl /\
+    OpDec.operations rdbg (OpRoundtrip.renc (dcfg_of e)) bs = (ros, None) /\
+    map (fun x => OpRoundtrip.tr (snd x)) dl = map Some ros.
+Proof. exact OpRoundtrip.decode_written_by_reader_lemma. Qed.
+
+(* (b) Every written DW_OP_skip (is_skip = true) / DW_OP_bra: the reader parses its three bytes to Skip/Bra disp, and
+   the evaluator's compute_pc, standing just after them in the written bytecode, moves the pc to post_t: the
+   written bytes minus pre_t, where pre_t is exactly the emission of the first t operations. The branch lands on
+   the first byte of operation t (or on the end for t = number of operations). *)
+Theorem branches_land_reader : forall (is_skip : bool) dbg rdbg e uo refs base ex bs fx,
+  base + blen bs < 2 ^ 63 ->
+  write_expr dbg e uo refs base ex = Ok (bs, fx) ->
+  forall k t, nth_error ex k = Some (if is_skip then WoSkip t else WoBranch t) ->
+  exists pre_k b post_k disp pre_t post_t offsets offs' fx',
+    bs = pre_k ++ b ++ post_k /\ length b = 3%nat /\
+    OpDec.parse_op rdbg (OpRoundtrip.renc (dcfg_of e)) (b ++ post_k) =
+      Ok ((if is_skip then OpDec.OSkip disp else OpDec.OBra disp), post_k) /\
+    bs = pre_t ++ post_t /\
+    expr_offsets dbg e uo base ex = Ok offsets /\
+    laid (write_op dbg e uo refs offsets) base (firstn (N.to_nat t) ex) offs' pre_t fx' /\
+    forall s, OpEval.s_bytecode s = bs -> OpEval.s_pc s = post_k -> OpEval.compute_pc s disp = Ok post_t.
+Proof. exact OpRoundtrip.branch_lands. Qed.
+
+Example ex1_by_reader :
+  OpDec.operations true (OpRoundtrip.renc (dcfg_of enc4))
+    [x35; x2f; x09; x00; x92; x28; x78; xf3; x04; x55; x28; xfc; xff; x15; x02; xf6; x04; x0e] =
+  ([OpDec.OUnsignedConstant 5; OpDec.OSkip 9; OpDec.ORegisterOffset 40 (-8) 0; OpDec.OEntryValue [x55; x28; xfc; xff];
+    OpDec.OPick 2; OpDec.ODeref 14 4 false], None).
+Proof. vm_compute. reflexivity. Qed.
+
+(* The evaluator model does not see the layout of a program: two bytecodes P1, P2 that decode, at corresponding
+   boundaries `pts`, to the same operations with Skip/Bra displacements reaching corresponding boundaries
+   (OpEvalSim.layout_ok) give the same conversation: same requests, same final pieces / value / counters or the
+   same error, for every fops, fuel, build mode, configuration (with that encoding) and answer list. *)
+Theorem eval_layout_independent : forall (F : OpVal.fops) (e' : OpDec.enc) (P1 P2 : list byte) (pts : list (nat * nat)),
+  OpEvalSim.layout_ok e' P1 P2 pts ->
+  forall fuel dbg c answers, OpEval.c_enc c = e' ->
+    OpEval.run F fuel dbg c P1 answers = OpEval.run F fuel dbg c P2 answers.
+Proof. exact OpEvalSim.run_layout_independent. Qed.
+
+(* (c) eval_same: for every expression decode_written covers, evaluating the bytes write::Expression emitted gives
+   the same conversation as evaluating the canonical encoding (StackSpec.enc_op: DWARF 5 opcodes, constu/regx/bregx/
+   pick/deref_size instead of the short forms, minimal LEB128) of the operations the reader sees in them, with every
+   branch re-aimed at the canonical encoding's own boundary of the same target operation (OpEvalSame.canon_ops).
+   The only side conditions left concern the canonical program and are decidable per instance: canon_ops succeeds
+   (every branch reaches a boundary — true by branches_land — and the re-computed displacements still fit i16, which
+   the longer canonical forms can break) and it is shorter than 2^63 bytes. Its operations are automatically values
+   of gimli's Operation type (OpParseWf.parse_wf: whatever the reader decodes is StackSpec.wf_op, every opcode). *)
+Theorem eval_same : forall dbg0 e uo refs base ex bs fx,
+  wf_enc e = true ->
+  forallb wf_op ex = true -> wf_uoffs uo = true -> forallb decodable ex = true ->
+  base + blen bs < 2 ^ 63 ->
+  write_expr dbg0 e uo refs base ex = Ok (bs, fx) ->
+  exists dl ros1,
+    decode (dcfg_of e) bs = Some dl /\
+    OpDec.operations true (OpRoundtrip.renc (dcfg_of e)) bs = (ros1, None) /\
+    map (fun x => OpRoundtrip.tr (snd x)) dl = map Some ros1 /\
+    forall ops2,
+      OpEvalSame.canon_ops (OpRoundtrip.renc (dcfg_of e)) dl bs ros1 = Some ops2 ->
+      N.of_nat (length (OpEvalSame.canon_bytes (OpRoundtrip.renc (dcfg_of e)) ops2)) < 2 ^ 63 ->
+      forall F fuel dbg c answers, OpEval.c_enc c = OpRoundtrip.renc (dcfg_of e) ->
+        OpEval.run F fuel dbg c bs answers =
+        OpEval.run F fuel dbg c (OpEvalSame.canon_bytes (OpRoundtrip.renc (dcfg_of e)) ops2) answers.
+Proof. exact OpEvalSame.eval_same_final. Qed.
+
+(* Whatever the reader model decodes is a value of gimli's Operation type (field widths, registers below 2^16, piece
+   sizes whole bytes, ...) — every opcode; so StackSpec.decode_roundtrip applies to every decoded operation. *)
+Theorem reader_output_wf : forall dbg e' bs o r,
+  OpDec.e_asz e' < 256 -> OpDec.parse_op dbg e' bs = Ok (o, r) -> StackSpec.wf_op e' o.
+Proof. exact OpParseWf.parse_wf. Qed.
+
+(* ex1: its canonical re-encoding exists (skip +9 stays +9: 5+9 = 14 = canonical start of pick), is well-formed,
+   and is a different byte string *)
+Definition ex1_bytes : list byte := [x35; x2f; x09; x00; x92; x28; x78; xf3; x04; x55; x28; xfc; xff; x15; x02; xf6; x04; x0e].
+Definition ex1_ros : list OpDec.operation :=
+  [OpDec.OUnsignedConstant 5; OpDec.OSkip 9; OpDec.ORegisterOffset 40 (-8) 0; OpDec.OEntryValue [x55; x28; xfc; xff];
+   OpDec.OPick 2; OpDec.ODeref 14 4 false].
+Example ex1_canon :
+  OpEvalSame.canon_ops (OpRoundtrip.renc (dcfg_of enc4))
+    [(0, DoUConst 5); (1, DoSkip 9); (4, DoRegOffset 40 (-8) 0); (7, DoEntryValue [x55; x28; xfc; xff]);
+     (13, DoPick 2); (15, DoDeref 14 4 false)] ex1_bytes ex1_ros = Some ex1_ros /\
+  OpEvalSame.canon_bytes (OpRoundtrip.renc (dcfg_of enc4)) ex1_ros =
+    [x10; x05; x2f; x09; x00; x92; x28; x78; xa3; x04; x55; x28; xfc; xff; x15; x02; xa6; x04; x0e] /\
+  Forall (StackSpec.wf_op (OpRoundtrip.renc (dcfg_of enc4))) ex1_ros.
+Proof.
+  split; [vm_compute; reflexivity|]. split; [vm_compute; reflexivity|].
+  repeat constructor; try (vm_compute; reflexivity); try (intros H; now elim H).
+Qed.
